@@ -88,6 +88,7 @@ type orWorld struct {
 	samples []uint64
 	leaves  []struct{ block, id uint64 }
 	lpb     uint64
+	blocks  []uint64 // numbers of the blocks the syncer holds
 	pos     uint64
 	stall int
 	owed    uint64
@@ -151,8 +152,38 @@ func (w *orWorld) exec(r *Run, line string) string {
 			w.gerOf[id], w.idOf[ger] = ger, id
 			w.leaves = append(w.leaves, struct{ block, id uint64 }{bn, id})
 		}
-		must(w.p.ProcessBlock(ctx, blk))
+		if err := w.p.ProcessBlock(ctx, blk); err != nil {
+			r.Fail(fmt.Sprintf("[C15,C04] the L1 info syncer cannot store block %d of the chain (%v): an earlier reorg did not remove what it had to", bn, err), append([]string{"new"}, w.lines...))
+			panic(stopRun{})
+		}
 		w.lpb = bn
+		w.blocks = append(w.blocks, bn)
+		obs = "ok"
+	case "l1reorg": // l1reorg k: the L1 blocks k.. (all above every finalized block so far) are replaced; the syncer rewinds
+		k := bigOf(ws[1]).Uint64()
+		must(w.p.Reorg(ctx, k))
+		kept := w.leaves[:0:0]
+		for _, l := range w.leaves {
+			if l.block < k {
+				kept = append(kept, l)
+			}
+		}
+		w.leaves = kept
+		w.lpb = 0
+		for _, b := range w.blocks {
+			if b < k {
+				w.lpb = b
+			}
+		}
+		for len(w.blocks) > 0 && w.blocks[len(w.blocks)-1] >= k {
+			w.blocks = w.blocks[:len(w.blocks)-1]
+		}
+		// the driver resumes right after the last block the store still holds
+		got, err := w.p.Facade().GetLastProcessedBlock(ctx)
+		must(err)
+		if got != w.lpb {
+			r.Fail(fmt.Sprintf("[C15,C04] after a reorg from block %d the L1 info syncer's store ends at block %d, the last block below the reorg is %d", k, got, w.lpb), append([]string{"new"}, w.lines...))
+		}
 		obs = "ok"
 	case "tick":
 		w.l1.fin, w.l1.finErr, w.l1.sampled = bigOf(ws[1]).Uint64(), ws[2] == "1", false
@@ -309,6 +340,28 @@ func orGen(r *Run, rng *Rng) {
 					}
 				}
 				w.exec(r, strings.TrimSpace(fmt.Sprintf("l1blk %d %s", synced, strings.Join(gs, " "))))
+			}
+			// an L1 reorg above the finalized block: at the syncer's tip, or deeper; the new fork has its own updates
+			if synced > fin && rng.Chance(35) {
+				k := synced
+				if rng.Chance(50) {
+					k = fin + 1 + uint64(rng.Intn(int(synced-fin)))
+				}
+				w.exec(r, fmt.Sprintf("l1reorg %d", k))
+				r.Count(fmt.Sprintf("l1reorg:at-tip=%v", k == synced))
+				synced = k - 1
+				for int64(synced) < target {
+					synced += uint64(1 + rng.Intn(6))
+					if int64(synced) > target {
+						synced = uint64(target)
+					}
+					var gs []string
+					if rng.Chance(35) {
+						gs = append(gs, fmt.Sprint(nextID))
+						nextID++
+					}
+					w.exec(r, strings.TrimSpace(fmt.Sprintf("l1blk %d %s", synced, strings.Join(gs, " "))))
+				}
 			}
 			e := func(p int) string { return b2s(rng.Chance(p)) }
 			l2s := "-"
